@@ -89,12 +89,23 @@ def oracle_first_match(engine, txn, data_sources=None):
 
 
 # ------------------------------------------------------------------------------------------- templates
-T_VARS = '''
+# Small files (2-3 rules): how N rules shadow each other is the truth-vector core's subject; these files check
+# that conditions, global variables and let bindings are wired into the selection as the reference says.
+T_VARS1 = '''
 big = amount > 9001
 
 [A]
 match: contains("@P1") and big
 category: CA
+
+[C]
+match: big
+category: CC
+subcategory: SC
+'''
+
+T_VARS2 = '''
+big = amount > 9001
 
 [Tag]
 match: startswith("@P2")
@@ -107,7 +118,7 @@ category: CB
 subcategory: SB
 
 [C]
-match: big
+match: not big
 category: CC
 '''
 
@@ -134,7 +145,26 @@ match: amount > 0 or amount <= 0
 category: CZ
 '''
 
-T_DATES = '''
+T_LETSHADOW2 = '''
+limit = 9001
+
+[P]
+let: limit = 9002
+let: only_here = 9003
+match: amount > limit and contains("@P1")
+category: CP
+
+[L]
+match: amount > limit
+category: CL
+subcategory: SL
+
+[O]
+match: amount > only_here
+category: CO
+'''
+
+T_DATES1 = '''
 [Dec]
 match: month == 9001 and date >= "2024-12-05"
 category: CDec
@@ -143,17 +173,23 @@ category: CDec
 match: weekday >= 5
 tags: weekend
 
-[Y]
-match: year == 9002 or day < 9003
-category: CY
-subcategory: SY
-
 [Rest]
 match: date <= "2025-06-30"
 category: CRest
 '''
 
-T_FIELDS = '''
+T_DATES2 = '''
+[Y]
+match: year == 9002 or day < 9003
+category: CY
+subcategory: SY
+
+[W]
+match: weekday == 9001
+category: CW
+'''
+
+T_FIELDS1 = '''
 [F1]
 match: field.k == "@P1"
 category: CF1
@@ -162,7 +198,9 @@ category: CF1
 match: contains(field.k, "@P2") and not contains("@P3")
 category: CF2
 subcategory: SF2
+'''
 
+T_FIELDS2 = '''
 [T]
 match: exists(field.missing) or "@P3" in description
 tags: seen
@@ -170,9 +208,13 @@ tags: seen
 [F3]
 match: source != "@P4"
 category: CF3
+
+[F4]
+match: exists(field.k)
+category: CF4
 '''
 
-T_FUNCS = '''
+T_FUNCS1 = '''
 [N]
 match: anyof("@P1", "@P2")
 category: CN
@@ -181,7 +223,9 @@ category: CN
 match: regex("A.B") or startswith("@P3")
 category: CR
 subcategory: SR
+'''
 
+T_FUNCS2 = '''
 [U]
 match: unknown_name > 3
 category: CU
@@ -189,6 +233,10 @@ category: CU
 [S]
 match: amount >= 9001 and amount <= 9002
 category: CS
+
+[N2]
+match: normalized("@P1")
+category: CN2
 '''
 
 T_FAIL = '''
@@ -213,5 +261,5 @@ category: CE4
 subcategory: SE4
 '''
 
-TEMPLATES = {'vars': T_VARS, 'letshadow': T_LETSHADOW, 'dates': T_DATES, 'fields': T_FIELDS,
-             'funcs': T_FUNCS, 'fail': T_FAIL}
+TEMPLATES = {'vars1': T_VARS1, 'vars2': T_VARS2, 'letshadow': T_LETSHADOW, 'letshadow2': T_LETSHADOW2, 'dates1': T_DATES1, 'dates2': T_DATES2,
+             'fields1': T_FIELDS1, 'fields2': T_FIELDS2, 'funcs1': T_FUNCS1, 'funcs2': T_FUNCS2, 'fail': T_FAIL}
